@@ -88,7 +88,11 @@ def gen_case(seed, tier):
         elif r < 0.69:
             op = {'op': 'reverse'}
         elif r < 0.74:
-            op = {'op': rng.choice(('remove', 'count')), 'v': rng.choice(SMALL)}
+            op = {'op': rng.choice(('remove', 'count', 'index', 'contains')), 'v': rng.choice(SMALL)}
+            if op['op'] == 'index' and rng.random() < 0.7:
+                op['start'] = rng.randint(-7, 7)
+                if rng.random() < 0.5:
+                    op['stop'] = rng.randint(-7, 7)
         elif r < 0.76:
             op = {'op': 'clear'}
         elif r < 0.80:
@@ -185,6 +189,13 @@ def apply_both(dq, ref, op):
     if name == 'count':
         v = vals.dec(op['v'])
         return _norm(lambda: dq.count(v)), _norm(lambda: ref.count(v))
+    if name == 'contains':
+        v = vals.dec(op['v'])
+        return _norm(lambda: v in dq), _norm(lambda: v in ref)
+    if name == 'index':
+        v = vals.dec(op['v'])
+        args = [op[k] for k in ('start', 'stop') if k in op]
+        return _norm(lambda: dq.index(v, *args)), _norm(lambda: ref.index(v, *args))
     if name == 'clear':
         return _norm(dq.clear), _norm(ref.clear)
     if name == 'len':
